@@ -1388,6 +1388,14 @@ Theorem inv_reachable_q limits gated ops : Inv (qrun (init limits gated) ops).
 Proof. apply inv_qrun; [apply wf_init|apply inv_init]. Qed.
 
 (* ------------------------------------------------------------------ reachable states *)
+(* Main results below:
+   inv_step / inv_qstep / inv_run / inv_qrun / inv_reachable(_q)   the invariant Inv for every history
+   own_reachable, owner_unique, held_reachable, nothing_outlives_owner, nodup_reachable,
+   one_publisher_per_stream, hold_reachable and its readable forms   its parts, spelled out
+   close_session_closes, close_one_closes, leave_room_closes, leave_call_closes, revoke_closes,
+   ..._emits_close                                                   releasing, in any state
+   completion_owned_or_closed                                        no unowned duplicate
+   request_needs_same_call, offer_needs_permission                   the gates of do_media *)
 Definition reachable (h : hub) : Prop :=
   exists limits gated ops, h = run (init limits gated) ops \/ h = qrun (init limits gated) ops.
 Theorem reachable_inv h : reachable h -> Inv h.
@@ -1562,6 +1570,14 @@ Theorem request_needs_same_call h c sid s n stream media :
 Proof.
   intros Hne Hsc. unfold do_media. cbn [N.eqb]. destruct (N.eqb_spec n sid); [contradiction|]. now rewrite Hsc.
 Qed.
+
+(* whatever the recipient is: a request that is not for the session's own stream and fails the
+   same-room-same-call test starts nothing *)
+Theorem request_needs_same_call_any h c sid s i stream media :
+  (match i with IdPub x => N.eqb x sid | _ => false end) = false ->
+  same_call h sid s (match i with IdPub x => x | _ => 0 end) = false ->
+  do_media h c sid s (RSession i) 1 stream media = (h, [ToConn c (SError E_not_allowed)]).
+Proof. intros Hself Hsc. unfold do_media. cbn [N.eqb]. now rewrite Hself, Hsc. Qed.
 
 (* ------------------------------------------------------------------ a completed creation is owned or closed *)
 Lemma deliver_to_session_keeps h sid m :
